@@ -160,6 +160,18 @@ theorem classPart_spec (m : ClassDef.Tab) (hm : ClassGood m) (cb : Bytes) (h : C
     | err e => rw [hw] at h; simp at h
     | panic s => rw [hw] at h; simp at h
 
+/-- … and those words read back as the normal form of the table -/
+theorem classPart_nf (m : ClassDef.Tab) (hm : ClassGood m) (cb : Bytes) (h : ClassDef.append m = .ok cb) :
+    ∃ ws, cb = wordsToBytes ws ∧ (∀ w ∈ ws, w < 65536) ∧ ClassDef.readW ws = .ok (ClassDef.nfTab m) ∧
+      ∀ g, ClassDef.classOf (ClassDef.nfTab m) g = ClassDef.get m g := by
+  obtain ⟨_, ws, es, rfl, hlt, hr, hc⟩ := classPart_spec m hm cb h
+  have : ClassDef.nfTab m = es := by
+    unfold ClassDef.nfTab
+    rw [h]
+    simp only [ClassDef.read, bytesToWords_wordsToBytes _ hlt, hr]
+  rw [this]
+  exact ⟨ws, rfl, hlt, hr, hc⟩
+
 /-- a class definition table is read back from where it was put -/
 theorem classRead_at (pre post : Bytes) (ws : List Nat) (es : List (Nat × Nat))
     (hlt : ∀ w ∈ ws, w < 65536) (hr : ClassDef.readW ws = .ok es) :
@@ -251,17 +263,22 @@ def ClassMatch : Option ClassDef.Tab → Option (List (Nat × Nat)) → Prop
 theorem readClassAt_spec (p : Option ClassDef.Tab) (hp : ∀ m, p = some m → ClassGood m)
     (pre post B : Bytes) (hB : outBytes (p.map mkPart) = .ok B) (hpre : 0 < pre.length) :
     B.length + pre.length = (partOff (p.map mkPart) pre.length).2 ∧
-    ∃ r, readClassAt (pre ++ B ++ post) (partOff (p.map mkPart) pre.length).1 = .ok r ∧ ClassMatch p r := by
+    ∃ r, readClassAt (pre ++ B ++ post) (partOff (p.map mkPart) pre.length).1 = .ok r ∧ ClassMatch p r ∧
+      r = p.map ClassDef.nfTab := by
   cases p with
   | none =>
     simp only [Option.map_none, outBytes, Outcome.ok.injEq] at hB
     subst hB
-    exact ⟨by simp [partOff], none, by simp [partOff, readClassAt], trivial⟩
+    exact ⟨by simp [partOff], none, by simp [partOff, readClassAt], trivial, rfl⟩
   | some m =>
     simp only [Option.map_some, outBytes, mkPart] at hB
     obtain ⟨hlen, ws, es, rfl, hlt, hr, hcls⟩ := classPart_spec m (hp m rfl) B hB
+    have hnf : ClassDef.nfTab m = es := by
+      unfold ClassDef.nfTab
+      rw [hB]
+      simp only [ClassDef.read, bytesToWords_wordsToBytes _ hlt, hr]
     have hne : (pre.length != 0) = true := by simp only [bne_iff_ne, ne_eq]; omega
-    refine ⟨?_, some es, ?_, hcls⟩
+    refine ⟨?_, some es, ?_, hcls, by rw [Option.map_some, hnf]⟩
     · show (wordsToBytes ws).length + pre.length = pre.length + ClassDef.appendLen m
       omega
     · simp only [Option.map_some, partOff, readClassAt, hne, if_true, classRead_at pre post ws es hlt hr]
@@ -270,7 +287,8 @@ theorem readClassAt_spec (p : Option ClassDef.Tab) (hp : ∀ m, p = some m → C
 theorem roundtrip_noSets (gcT macT : Option ClassDef.Tab)
     (hg : ∀ m, gcT = some m → ClassGood m) (hm : ∀ m, macT = some m → ClassGood m)
     (b : Bytes) (hb : encode (gcT.map mkPart) (macT.map mkPart) none = .ok b) :
-    ∃ r, read b = .ok r ∧ ClassMatch gcT r.gc ∧ ClassMatch macT r.mac ∧ r.sets = none := by
+    ∃ r, read b = .ok r ∧ ClassMatch gcT r.gc ∧ ClassMatch macT r.mac ∧ r.sets = none ∧
+      r.gc = gcT.map ClassDef.nfTab ∧ r.mac = macT.map ClassDef.nfTab := by
   simp only [encode, Option.isSome_none, Bool.false_eq_true, if_false, List.append_nil] at hb
   split at hb
   · simp at hb
@@ -290,11 +308,11 @@ theorem roundtrip_noSets (gcT macT : Option ClassDef.Tab)
       have hH : (wordsToBytes [1, 0, w16 (partOff (gcT.map mkPart) 12).1, 0, 0,
           w16 (partOff (macT.map mkPart) (partOff (gcT.map mkPart) 12).2).1]).length = 12 := by
         rw [length_wordsToBytes]; rfl
-      obtain ⟨hl1, r1, hr1, hm1⟩ := readClassAt_spec gcT hg _ (B2) B1 hB1 (by rw [hH]; omega)
+      obtain ⟨hl1, r1, hr1, hm1, hn1⟩ := readClassAt_spec gcT hg _ (B2) B1 hB1 (by rw [hH]; omega)
       rw [hH] at hl1 hr1
       have hgoff : (partOff (gcT.map mkPart) 12).1 < 65536 := by
         cases gcT <;> simp [partOff]
-      obtain ⟨hl2, r2, hr2, hm2⟩ := readClassAt_spec macT hm
+      obtain ⟨hl2, r2, hr2, hm2, hn2⟩ := readClassAt_spec macT hm
         (wordsToBytes [1, 0, w16 (partOff (gcT.map mkPart) 12).1, 0, 0,
           w16 (partOff (macT.map mkPart) (partOff (gcT.map mkPart) 12).2).1] ++ B1) [] B2 hB2
         (by rw [List.length_append, hH]; omega)
@@ -314,7 +332,7 @@ theorem roundtrip_noSets (gcT macT : Option ClassDef.Tab)
           w16 (partOff (macT.map mkPart) (partOff (gcT.map mkPart) 12).2).1] ++ (B1 ++ B2) = b := hb
       rw [List.append_assoc, hb'] at hr1 hr2
       rw [hb'] at hw
-      refine ⟨⟨r1, r2, none⟩, ?_, hm1, hm2, rfl⟩
+      refine ⟨⟨r1, r2, none⟩, ?_, hm1, hm2, rfl, hn1, hn2⟩
       simp only [read, hw, List.cons_append, List.nil_append]
       rw [w16_of_lt hgoff, w16_of_lt (by omega), hr1, hr2]
       simp [readMgs]
@@ -325,7 +343,8 @@ theorem roundtrip_sets (gcT macT : Option ClassDef.Tab) (ss : List (List Nat))
     (hv : ∀ s ∈ ss, Cov.Valid s) (hn : ss.length < 65536)
     (hsz : 4 + 4 * ss.length + (ss.map fun s => 2 * (Cov.encodeW s).length).sum < 4294967296)
     (b : Bytes) (hb : encode (gcT.map mkPart) (macT.map mkPart) (some ss) = .ok b) :
-    ∃ r, read b = .ok r ∧ ClassMatch gcT r.gc ∧ ClassMatch macT r.mac ∧ r.sets = some ss := by
+    ∃ r, read b = .ok r ∧ ClassMatch gcT r.gc ∧ ClassMatch macT r.mac ∧ r.sets = some ss ∧
+      r.gc = gcT.map ClassDef.nfTab ∧ r.mac = macT.map ClassDef.nfTab := by
   simp only [encode, Option.isSome_some, if_true] at hb
   split at hb
   rotate_left
@@ -363,11 +382,11 @@ theorem roundtrip_sets (gcT macT : Option ClassDef.Tab) (ss : List (List Nat))
           have hH : (wordsToBytes ([1, 2, w16 G.1, 0, 0, w16 M.1] ++ [w16 M.2])).length = 14 := by
             rw [length_wordsToBytes]; rfl
           have hgoff : G.1 < 65536 := by rw [← hG]; cases gcT <;> simp [partOff]
-          obtain ⟨hl1, r1, hr1, hm1⟩ := readClassAt_spec gcT hg
+          obtain ⟨hl1, r1, hr1, hm1, hn1⟩ := readClassAt_spec gcT hg
             (wordsToBytes ([1, 2, w16 G.1, 0, 0, w16 M.1] ++ [w16 M.2]))
             (B2 ++ (wordsToBytes ([1, w16 ss.length] ++ offs) ++ cb)) B1 hB1 (by rw [hH]; omega)
           rw [hH, hG] at hl1 hr1
-          obtain ⟨hl2, r2, hr2, hm2⟩ := readClassAt_spec macT hm
+          obtain ⟨hl2, r2, hr2, hm2, hn2⟩ := readClassAt_spec macT hm
             (wordsToBytes ([1, 2, w16 G.1, 0, 0, w16 M.1] ++ [w16 M.2]) ++ B1)
             (wordsToBytes ([1, w16 ss.length] ++ offs) ++ cb) B2 hB2
             (by rw [List.length_append, hH]; omega)
@@ -426,7 +445,7 @@ theorem roundtrip_sets (gcT macT : Option ClassDef.Tab) (ss : List (List Nat))
               rw [← hol]; exact List.take_left
             simp only [hlen, if_false, htake, hpair, hrs]
             simp
-          refine ⟨⟨r1, r2, some ss⟩, ?_, hm1, hm2, rfl⟩
+          refine ⟨⟨r1, r2, some ss⟩, ?_, hm1, hm2, rfl, hn1, hn2⟩
           simp only [read, hw, List.cons_append, List.nil_append]
           rw [w16_of_lt hgoff, w16_of_lt (show M.1 < 65536 by omega), w16_of_lt (show M.2 < 65536 by omega)]
           simp [hr1', hr2', hmgs]
